@@ -309,6 +309,14 @@ func proofMutants(s *chain.Sim, p chain.BlockPlan, rng *rand.Rand) []mutant {
 
 func runC07(c *fw.Ctx) {
 	res := c.Res
+	// the storage-proof half (closures driven directly + Lean storage-proof model) is the sub-check C07P
+	defer func() {
+		if sp := fw.Lookup("C07P"); sp != nil {
+			rule := c.Res.Rule
+			sp(c)
+			c.Res.Rule = rule + " PLUS (C07P): " + c.Res.Rule
+		}
+	}()
 	res.Rule = "random valid chains (all modes; v1 contracts across the three storage-proof eras, v2 contracts) with contract formation, revision sequences, storage proofs (files of 0 bytes, partial last leaf, 1..7 leaves, non-power-of-two leaf counts), expiry and renewal: after every block the payout oracle (from the store before the block and the block's own revisions, in order) checks created outputs, maturity, revision invariants and single resolution; every storage proof of every generated block is also corrupted at one point (leaf byte, proof of another leaf, one proof hash, truncated, extended, another chain index), re-sealed and must be rejected. Non-trivial = block with a contract operation, or a proof mutant."
 	nChains := c.Budget(40, 1500)
 	blocks := c.Budget(45, 70)
